@@ -20,6 +20,23 @@ EXPLANATION = (
     "the same non-emptiness of the positions; build_predicate_result writes TRUE_TAG exactly when a position exists.")
 
 
+def expanded_calls(f, b, sites=False, depth=0, seen=None, stop=()):
+    """Callee names of a body, with the calls of private helper functions of this crate (functions::*, Selector::* that are
+    not part of the selector's entry API) expanded in place."""
+    seen = seen if seen is not None else set()
+    out = []
+    for _, t in b.calls():
+        nm = callee_name(t)
+        cb = f.bodies.get(nm)
+        if cb is not None and cb.vis == 'private' and depth < 4 and nm not in seen and not called(nm, 'Selector::find_positions', *stop) \
+                and (nm.startswith('functions::') or nm.startswith('jsonpath::selector::')):
+            seen.add(nm)
+            out.extend(expanded_calls(f, cb, sites, depth + 1, seen, stop))
+        else:
+            out.append(nm)
+    return out if sites else list(dict.fromkeys(out))
+
+
 def check(ctx, run):
     f = ctx.facts
     run.rules_run = ['R15.1', 'R15.2', 'R15.3', 'R15.4']
@@ -34,8 +51,9 @@ def check(ctx, run):
             run.undecided('R15.1', e, 'funnel', 'entry point not found (anchor lost)')
             continue
         n += 1
-        bad = sorted({canon(callee_name(t)) for _, t in b.calls() if not called(callee_name(t), *allowed)})
-        sel = sorted({canon(callee_name(t)).split('::')[-1] for _, t in b.calls() if called(callee_name(t), 'Selector::select', 'Selector::exists', 'Selector::predicate_match')})
+        calls = expanded_calls(f, b, stop=allowed)
+        bad = sorted({canon(nm) for nm in calls if not called(nm, *allowed)})
+        sel = sorted({canon(nm).split('::')[-1] for nm in calls if called(nm, 'Selector::select', 'Selector::exists', 'Selector::predicate_match')})
         ok = not bad and len(sel) == 1
         (run.proved if ok else run.violation)('R15.1', e, 'funnel', f'only Selector::{sel[0]} produces the result' if ok else f'calls outside the selector funnel: {bad}; selector methods used: {sel}', f'{b.file}:{b.line}')
     for m in ('select', 'exists', 'predicate_match'):
@@ -43,9 +61,12 @@ def check(ctx, run):
         if b is None:
             run.undecided('R15.1', SEL + m, 'funnel', 'method not found (anchor lost)')
             continue
-        fp = [t for _, t in b.calls() if called(callee_name(t), 'Selector::find_positions')]
+        fp = [nm for nm in expanded_calls(f, b, sites=True) if called(nm, 'Selector::find_positions')]
         ok = len(fp) == 1
-        (run.proved if ok else run.violation)('R15.1', SEL + m, 'positions', 'positions come from one call of find_positions(root, None, paths)' if ok else f'{len(fp)} calls of find_positions', f'{b.file}:{b.line}')
+        if not fp:
+            run.undecided('R15.1', SEL + m, 'positions', 'no call of find_positions was found in this method or its private helpers: where its positions come from is not decided', f'{b.file}:{b.line}')
+        else:
+            (run.proved if ok else run.violation)('R15.1', SEL + m, 'positions', 'positions come from one call of find_positions(root, None, paths)' if ok else f'{len(fp)} calls of find_positions', f'{b.file}:{b.line}')
     # the mode is consulted only by select
     readers = []
     for p, b in f.bodies.items():
@@ -141,6 +162,7 @@ def check(ctx, run):
         heads = sorted(loops, key=lambda h: -len(loops[h]))
         ok = False
         why = 'expected an item loop containing an entry-word back-patch loop'
+        bad = []
         if len(heads) >= 2:
             outer, inner = heads[0], heads[1]
             # blocks where a popped position is Some: successors of the switch on discr(pop_front)
@@ -157,7 +179,13 @@ def check(ctx, run):
             ok = bool(some_blocks) and not bad and has_patch
             if bad:
                 why = 'a path from a popped position reaches the next iteration without passing the loop that writes its entry word: the reserved entry stays zero (null)'
-        (run.proved if ok else run.violation)('R15.3', b.path, 'entry-word-per-item', 'every popped position passes through the entry back-patch loop before the next one' if ok else why, f'{b.file}:{b.line}')
+        if ok:
+            run.proved('R15.3', b.path, 'entry-word-per-item', 'every popped position passes through the entry back-patch loop before the next one', f'{b.file}:{b.line}')
+        elif len(heads) >= 2 and bad:
+            run.violation('R15.3', b.path, 'entry-word-per-item', why, f'{b.file}:{b.line}')
+        else:
+            run.undecided('R15.3', b.path, 'entry-word-per-item', 'the array writer is not an item loop over popped positions containing a byte-wise entry back-patch loop (the shape this rule reads): '
+                          'whether every item gets its entry word is not decided here (R17.2/R17.5 still check the positions written)', f'{b.file}:{b.line}')
         # the jentry written carries the position's own type and length
         ex = Explorer(b)
         outer = heads[0] if heads else None
@@ -166,7 +194,7 @@ def check(ctx, run):
             if p.end[0] != 'stop':
                 continue
             for k, v in p.store.items():
-                if k[0] == 'L' and b.name_of(k[1]) == 'jentry' and v[0] == 'bin' and v[1] == 'BitOr':
+                if k[0] == 'L' and b.name_of(k[1]) and v[0] == 'bin' and v[1] == 'BitOr' and str(b.local_ty(k[1]).get('s')) == 'u32':
                     var = [c for c in p.conds if c[0][0] == 'discr' and 'Some' in show(c[0]) and c[1] == 'eq']
                     kinds[var[-1][2] if var else '?'] = v
         okc = False
@@ -174,8 +202,11 @@ def check(ctx, run):
             a, c = v[2], v[3]
             if const_of(a) == cv(f, 'CONTAINER_TAG') and 'Container' in show(c):
                 okc = True
-        (run.proved if okc and len(kinds) >= 2 else run.violation)('R15.3', b.path, 'entry-word-value', 'CONTAINER_TAG | length for containers, type | length for scalars' if okc and len(kinds) >= 2 else
-                                                                    f'entry words written: {[show(v)[:60] for v in kinds.values()]}', f'{b.file}:{b.line}')
+        if not kinds:
+            run.undecided('R15.3', b.path, 'entry-word-value', 'no entry word computed as `tag | length` in a local of the item loop was found: its value is not decided', f'{b.file}:{b.line}')
+        else:
+            (run.proved if okc and len(kinds) >= 2 else run.violation)('R15.3', b.path, 'entry-word-value', 'CONTAINER_TAG | length for containers, type | length for scalars' if okc and len(kinds) >= 2 else
+                                                                        f'entry words written: {[show(v)[:60] for v in kinds.values()]}', f'{b.file}:{b.line}')
     # ---- R15.4 predicate consistency
     for m, on_pred, on_plain in (('exists', 'Ok(true)', 'nonempty'), ('predicate_match', 'nonempty', 'Err')):
         b = f.bodies.get(SEL + m)
@@ -204,6 +235,10 @@ def check(ctx, run):
                 res = show(r)[:40]
             got[pred[0][2]] = res
         ok = got.get(True) == on_pred and got.get(False) == on_plain
+        known_forms = {'Err', 'Ok(true)', 'Ok(false)', 'nonempty'}
+        if not ok and (set(got) != {True, False} or any(v not in known_forms for v in got.values())):
+            run.undecided('R15.4', b.path, 'predicate-split', f'outcomes by is_predicate() are not in a form this rule reads: {got}', f'{b.file}:{b.line}')
+            continue
         (run.proved if ok else run.violation)('R15.4', b.path, 'predicate-split', f'predicate path -> {on_pred}, plain path -> {on_plain}' if ok else f'outcomes by is_predicate(): {got}', f'{b.file}:{b.line}')
     b = f.bodies.get(SEL + 'build_predicate_result')
     if b is not None:
@@ -216,8 +251,23 @@ def check(ctx, run):
             ws = [const_of(e[2][1]) for e in p.calls() if called(e[1], 'WriteBytesExt::write_u32')]
             if d:
                 got['some' if (d[0][1] == 'eq' and d[0][2] == 1) else 'none'] = ws
+            else:
+                # the same test written with is_some()/is_none()/is_empty()
+                for c in p.conds:
+                    t = c[0]
+                    if isinstance(c[2], bool) and t[0] == 'call' and t[2]:
+                        inner = deref_all(t[2][0])
+                        if called(t[1], 'Option::is_some') and is_call(inner, 'VecDeque::pop_front'):
+                            got['some' if c[2] else 'none'] = ws
+                        elif called(t[1], 'Option::is_none') and is_call(inner, 'VecDeque::pop_front'):
+                            got['none' if c[2] else 'some'] = ws
+                        elif called(t[1], 'VecDeque::is_empty'):
+                            got['none' if c[2] else 'some'] = ws
         ok = got.get('some') == [cv(f, 'SCALAR_CONTAINER_TAG'), cv(f, 'TRUE_TAG')] and got.get('none') == [cv(f, 'SCALAR_CONTAINER_TAG'), cv(f, 'FALSE_TAG')]
-        (run.proved if ok else run.violation)('R15.4', b.path, 'boolean', 'scalar header + TRUE_TAG iff a position exists, FALSE_TAG otherwise' if ok else f'words written: {got}', f'{b.file}:{b.line}')
+        if not ok and set(got) != {'some', 'none'}:
+            run.undecided('R15.4', b.path, 'boolean', f'the test "is there a position" was not recognised on the paths of this function (found {sorted(got)}): the words written are not decided', f'{b.file}:{b.line}')
+        else:
+            (run.proved if ok else run.violation)('R15.4', b.path, 'boolean', 'scalar header + TRUE_TAG iff a position exists, FALSE_TAG otherwise' if ok else f'words written: {got}', f'{b.file}:{b.line}')
     return report.finish(run, level='other', explanation=EXPLANATION, assumptions=["A1: valid documents"])
 
 
